@@ -372,6 +372,83 @@ pub fn c06(ctx: &mut Ctx) {
             }
         }
     }
+    // member boundaries at chosen offsets of the COMPRESSED file: the first member is sized (by tuning one record's
+    // length) so that it ends within a few bytes of a multiple of the usual I/O buffer sizes (8 KiB, 32 KiB, 64 KiB)
+    {
+        let mut targets: Vec<usize> = Vec::new();
+        for m in [8192usize, 16384, 24576, 32768, 65536] {
+            for d in -3i64..=3 {
+                targets.push((m as i64 + d) as usize);
+            }
+        }
+        for level in [0u32, 6] {
+            for fastq in [false, true] {
+                if !sh.mine() {
+                    continue;
+                }
+                // for every buffer size m: bisect the record length at which the member size reaches m - 3, then walk
+                // upwards and remember the first length that produces each wanted size
+                let ser = if fastq { Ser::Fastq } else { Ser::FastaLine };
+                let maxn = if level == 0 { 66_000 } else if fastq { 170_000 } else { 300_000 };
+                let all = long_bases(maxn + 8, 3);
+                let size_of = |n: usize| -> usize {
+                    let rec = Rec { header: "first member".into(), bases: all[..n].to_vec() };
+                    let (text, _) = serialise(&[rec], ser);
+                    gz_members(&[&text], level).len()
+                };
+                let mut found: std::collections::BTreeMap<usize, usize> = std::collections::BTreeMap::new();
+                for m in [8192usize, 16384, 24576, 32768, 65536] {
+                    let (mut lo, mut hi) = (1usize, maxn);
+                    if size_of(hi) < m - 3 {
+                        continue;
+                    }
+                    while lo < hi {
+                        let mid = (lo + hi) / 2;
+                        if size_of(mid) < m - 3 {
+                            lo = mid + 1;
+                        } else {
+                            hi = mid;
+                        }
+                    }
+                    let mut n = lo.saturating_sub(12).max(1);
+                    let mut steps = 0;
+                    while n <= maxn && steps < 400 {
+                        let sz = size_of(n);
+                        if sz > m + 3 && n > lo + 40 {
+                            break;
+                        }
+                        if targets.contains(&sz) {
+                            found.entry(sz).or_insert(n);
+                        }
+                        n += 1;
+                        steps += 1;
+                    }
+                }
+                for (&sz, &n) in &found {
+                    let first = Rec { header: "first member".into(), bases: all[..n].to_vec() };
+                    let tail = vec![Rec { header: "b second".into(), bases: b"ACGTNACG".to_vec() }, Rec { header: "c".into(), bases: b"TT".to_vec() }];
+                    let (t1, _) = serialise(&[first.clone()], ser);
+                    let (t2, _) = serialise(&tail[..1], ser);
+                    let (t3, _) = serialise(&tail[1..], ser);
+                    for three in [false, true] {
+                        let bytes = if three { gz_members(&[&t1, &t2, &t3], level) } else {
+                            let mut t23 = t2.clone();
+                            t23.extend_from_slice(&t3);
+                            gz_members(&[&t1, &t23], level)
+                        };
+                        let mut recs = vec![first.clone()];
+                        recs.extend(tail.iter().cloned());
+                        case_no += 1;
+                        let cont = format!("gz-first-member-{}-bytes-l{}-{}", sz, level, if three { "3m" } else { "2m" });
+                        let argv = vec!["case".to_string(), "C06size".to_string(), n.to_string(), (fastq as u8).to_string(), level.to_string(), (three as u8).to_string()];
+                        c06_read(ctx, &recs, ser, &cont, &bytes, case_no, argv);
+                        ctx.rep.count("files.member_size_sweep", 1);
+                    }
+                }
+                ctx.rep.count("member_sizes_hit", found.len() as u64);
+            }
+        }
+    }
     // suffix table
     if ctx.shard.is_first() {
         for (name, exp) in [
@@ -856,6 +933,11 @@ pub fn c08(ctx: &mut Ctx) {
         ("polyA", vec![fill(b"A", 50), b"AAC".to_vec(), b"".to_vec(), b"NNNN".to_vec()]),
         ("AC40", vec![fill(b"AC", 80), b"CACA".to_vec(), b"GT".to_vec()]),
         ("two-hundred", many),
+        ("long-first", {
+            let mut lf = vec![fill(b"ACGGTCAN", 150_000)];
+            lf.extend(strings(b"ACGT", 1, 2).into_iter().take(6));
+            lf
+        }),
         ("empty-last", vec![b"ACG".to_vec(), b"".to_vec()]),
         ("only-empty", vec![b"".to_vec()]),
         ("all-N", vec![b"NNN".to_vec(), b"N".to_vec()]),
@@ -930,6 +1012,27 @@ pub fn replay(ctx: &mut Ctx, args: &[String]) {
             let (text, bounds) = serialise(&recs, ser);
             let bytes = container_bytes(&text, &bounds, &args[3]);
             c06_read(ctx, &recs, ser, &args[3], &bytes, 0, vec![]);
+        }
+        "C06size" => {
+            let n: usize = args[1].parse().unwrap();
+            let fastq = args[2] == "1";
+            let level: u32 = args[3].parse().unwrap();
+            let three = args[4] == "1";
+            let ser = if fastq { Ser::Fastq } else { Ser::FastaLine };
+            let all = long_bases(n + 8, 3);
+            let first = Rec { header: "first member".into(), bases: all[..n].to_vec() };
+            let tail = vec![Rec { header: "b second".into(), bases: b"ACGTNACG".to_vec() }, Rec { header: "c".into(), bases: b"TT".to_vec() }];
+            let (t1, _) = serialise(&[first.clone()], ser);
+            let (t2, _) = serialise(&tail[..1], ser);
+            let (t3, _) = serialise(&tail[1..], ser);
+            let bytes = if three { gz_members(&[&t1, &t2, &t3], level) } else {
+                let mut t23 = t2.clone();
+                t23.extend_from_slice(&t3);
+                gz_members(&[&t1, &t23], level)
+            };
+            let mut recs = vec![first];
+            recs.extend(tail);
+            c06_read(ctx, &recs, ser, "gz-member-size", &bytes, 0, vec![]);
         }
         "C06long" => {
             let len: usize = args[1].parse().unwrap();
